@@ -263,7 +263,7 @@ def main(run):
                 chunks.append(("mut", page, lo, lo + step))
     total = len(chunks)
     done = 0
-    for cid, acc, hung in run_chunks(work, chunks, nproc=run.nproc, case_timeout=20):
+    for cid, acc, hung in run_chunks(work, chunks, nproc=run.nproc, case_timeout=60):
         run.acc.merge(acc)
         done += 1
         if done % 500 == 0:
